@@ -61,6 +61,7 @@ func Send[T any](c *Chan[T], v T) {
 	if c == nil {
 		vsched.WaitUntil(func() bool { return false })
 	}
+	vsched.K(vsched.KSend)
 	vsched.WaitUntil(c.sendReady)
 	c.doSend(v)
 }
@@ -80,13 +81,14 @@ func Recv2[T any](c *Chan[T]) (T, bool) {
 		c.waiting++
 		defer func() { c.waiting-- }()
 	}
+	vsched.K(vsched.KRecv)
 	vsched.WaitUntil(c.recvReady)
 	return c.doRecv()
 }
 
 // Close is `close(c)`.
 func Close[T any](c *Chan[T]) {
-	vsched.Step()
+	vsched.StepK(vsched.KClose)
 	if c.closed {
 		panic("close of closed channel")
 	}
@@ -157,6 +159,7 @@ func (s *Sel) readyList() []int {
 
 // Wait performs the select: returns the index of the case taken, -1 for default.
 func (s *Sel) Wait() int {
+	vsched.K(vsched.KSelect)
 	if s.hasDefault {
 		vsched.Yield()
 		r := s.readyList()
